@@ -181,6 +181,8 @@ pub struct Server {
     pubsub: Arc<PubSubManager>,
     /// AOF persistence engine
     aof_engine: Option<Arc<AofEngine>>,
+    /// Database the append-only file is positioned on (a SELECT is logged when it changes)
+    aof_selected_db: AtomicUsize,
     /// Connections with pending writes
     pending_writes: Arc<Mutex<Vec<u64>>>,
     /// Server statistics
@@ -348,6 +350,7 @@ impl Server {
             storage_monitor: Some(storage_monitor),
             pubsub,
             aof_engine,
+            aof_selected_db: AtomicUsize::new(usize::MAX), // unknown: the first entry is preceded by SELECT
             pending_writes: Arc::new(Mutex::new(Vec::new())),
             stats,
             start_time: SystemTime::now(),
@@ -1277,12 +1280,8 @@ impl Server {
         };
         
         // Log to AOF for write commands
-        if let Some(aof) = &self.aof_engine {
-            if self.is_write_command(&command_name) {
-                if let Err(e) = aof.append_command(parts) {
-                    eprintln!("Failed to append to AOF: {}", e);
-                }
-            }
+        if self.is_write_command(&command_name) {
+            self.append_to_aof(db, parts);
         }
         
         // Route to command handler
@@ -1658,6 +1657,23 @@ impl Server {
             None => {
                 // No password set on server
                 Ok(RespFrame::error("ERR Client sent AUTH, but no password is set"))
+            }
+        }
+    }
+    
+    /// Append a command that runs in database `db` to the append-only file, preceded by a
+    /// SELECT whenever the file is positioned on another database, so that re-executing the
+    /// file puts every command back into the database it ran in
+    fn append_to_aof(&self, db: usize, parts: &[RespFrame]) {
+        if let Some(aof) = &self.aof_engine {
+            if self.aof_selected_db.swap(db, Ordering::SeqCst) != db {
+                let select = vec![RespFrame::from_string("SELECT"), RespFrame::from_string(db.to_string())];
+                if let Err(e) = aof.append_command(&select) {
+                    eprintln!("Failed to append to AOF: {}", e);
+                }
+            }
+            if let Err(e) = aof.append_command(parts) {
+                eprintln!("Failed to append to AOF: {}", e);
             }
         }
     }
